@@ -336,6 +336,52 @@ def degenerate_extent_stream(ctx, md, viol):
                 break
 
 
+def face_stream(ctx, md, viol):
+    """Atoms a hair below a face of a skewed cell (y or z of -1e-9 .. -1e-7: rounding noise of an imaging step): the wrap into the brick puts
+    them exactly on the upper face in single precision, where the voxel index is folded once more."""
+    rng = ctx.rng
+    done = 0
+    for k in range(ctx.n(40, 300)):
+        kind, box = cells(rng)
+        if kind in ("cubic", "ortho"):
+            continue
+        box = box.astype(np.float64)
+        w = float(width(box))
+        n = 30
+        frac = np.array([[rng.random() for _ in range(3)] for _ in range(n)])
+        xyz = frac @ box
+        for a in range(6):
+            ax = 1 if a % 2 == 0 else 2
+            xyz[a, ax] = -rng.choice([1e-9, 1e-8, 1e-7])
+        for a in range(6, 12):   # … and a few units in the last place below (or on) the upper face
+            ax = 1 if a % 2 == 0 else 2
+            top = np.float32(box[ax, ax])
+            for _ in range(rng.randrange(0, 5)):
+                top = np.nextafter(top, np.float32(0))
+            xyz[a, ax] = float(top)
+        cut = rng.uniform(0.15, 0.45) * w
+        t = md.Trajectory(xyz[None].astype(np.float32), None)
+        t.unitcell_vectors = box[None].astype(np.float32)
+        pairs = np.array([(i, j) for i in range(n) for j in range(i + 1, n)])
+        d = md.compute_distances(t, pairs)[0]
+        nl = md.compute_neighborlist(t, cut)
+        done += 1
+        ctx.case(None, ("face", k)); ctx.count("systems with atoms a hair below a cell face")
+        want = {i: set() for i in range(n)}; maybe = {i: set() for i in range(n)}
+        for (i, j), dd in zip(pairs, d):
+            if dd < cut - 1e-5:
+                want[i].add(int(j)); want[j].add(int(i))
+            elif dd < cut + 1e-5:
+                maybe[i].add(int(j)); maybe[j].add(int(i))
+        for i in range(n):
+            got = [int(j) for j in nl[i]]
+            if len(set(got)) != len(got) or not want[i] <= set(got) or not set(got) <= want[i] | maybe[i]:
+                viol("neighborlist|atom-on-face|%s" % ("missing" if not want[i] <= set(got) else "extra"),
+                     "compute_neighborlist(cutoff=%.4f) in a %s cell with atoms a hair below a face: atom %d gets %s, within the cutoff are %s" % (cut, kind, i, sorted(got), sorted(want[i])),
+                     dict(cell=box.tolist(), xyz=xyz.tolist(), cutoff=cut))
+                return
+
+
 def tiny_cutoff_stream(ctx, md, viol):
     """Cutoffs far below the cell size, and one atom far away from the others without a cell: the voxel grid must not be sized by
     extent/cutoff alone.  Run in a child process with an address-space limit: exhausting memory ends the process (std::bad_alloc)."""
@@ -487,6 +533,7 @@ def run(ctx):
     skewed_large_cutoff_stream(ctx, md, viol)
     degenerate_extent_stream(ctx, md, viol)
     tiny_cutoff_stream(ctx, md, viol)
+    face_stream(ctx, md, viol)
     central_query_stream(ctx, md, viol)
     almost_rectangular_stream(ctx, md, viol)
     for key, (what, rp) in seen.items():
